@@ -17,13 +17,15 @@ TECHNIQUE = ('runtime monitoring: offline ordering oracle over recorded handler 
 LEVEL_TEXT = ('Held on the explored schedules: echo lag in {0, 0.5, 0.99, 1.0, 1.01, 1.5, 3} x consistency_timeout, foreign status/spec writes before and after the own patch '
               'in version order, request latency, idle_timeout below and above the consistency timeout, timeouts {0.5, 2, 5} and 0 (barrier off). The deciding '
               'situations (barrier released by echo / by timeout / interrupted by foreign events) are all counted and gated. Lag values are sampled from a grid.')
-LEVEL_NOTE = ('The barrier is judged per (incarnation, object) against writes acknowledged to that incarnation; daemon/timer result patches are outside the worker\'s '
-              'tracking (documented) and absent from these scenarios. Virtual time makes "t >= tp + timeout" exact to the microsecond.')
-RULE = ("scenarios: 1-2 objects, 2-4 change handlers with temporary errors/slow bodies (so that several own writes incl. touches happen per cycle), an @on.event probe, "
+LEVEL_NOTE = ('The barrier is judged per (incarnation, object) against writes acknowledged to that incarnation, separately for the writes of the object\'s worker '
+              '(must hold) and for patches made on behalf of timers/daemons from their own tasks (known finding: the worker is not told about them). '
+              'Virtual time makes "t >= tp + timeout" exact to the microsecond.')
+RULE = ("scenarios: 1-2 objects, 2-4 change handlers with temporary errors/slow bodies (so that several own writes incl. touches happen per cycle), an @on.event probe, optional timer delivering a result per tick, "
         "foreign status and spec writes at instants around the own writes; lag/latency/timeouts from grids; non-trivial = at least one handler call happened after an own "
         "write of the same incarnation; distinct = hash of (handler, view-vs-own-write relation, release reason) sequence")
 ASSUMPTIONS = ["watch events are delivered in version order per stream (FIFO lag)", "fake API server semantics"]
-GATES = {'calls_after_own_write': 100, 'released_by_echo': 20, 'released_by_timeout': 5, 'foreign_events_during_barrier': 10, 'event_probe_calls': 100}
+GATES = {'calls_after_own_write': 100, 'released_by_echo': 20, 'released_by_timeout': 5, 'foreign_events_during_barrier': 10, 'event_probe_calls': 100,
+         'calls_after_background_write': 20}
 
 
 def rnd_desc(rng: random.Random, i: int) -> dict[str, Any]:
@@ -41,6 +43,9 @@ def rnd_desc(rng: random.Random, i: int) -> dict[str, Any]:
         handlers.append({'kind': 'delete', 'id': 'd1', 'script': rng.choice([[], [['temp', 0.8]]])})
     if rng.random() < 0.3:
         handlers.append({'kind': 'daemon', 'id': 'dm', 'persona': {'type': 'obedient'}})
+    if rng.random() < 0.25:
+        # a timer that delivers a result at every tick: patches of the framework that do not come from the object's worker
+        handlers.append({'kind': 'timer', 'id': 'tm', 'opts': {'interval': rng.choice([0.3, 0.7, 1.3])}, 'script': [['ok', {'n': k}] for k in range(60)]})
     names = ['o0'] if rng.random() < 0.6 else ['o0', 'o1']
     tl: list[list[Any]] = [[0.0, 'start', 'op1']]
     for n in names:
@@ -112,7 +117,18 @@ def run_case(case: dict[str, Any]) -> dict[str, Any]:
         if c['kind'] not in CHANGING or c.get('post_mortem') or not c.get('rv') or not str(c['rv']).isdigit():
             continue
         v = int(c['rv'])
-        own = [r for r in ix.writes if r.client == c['inc'] and r.landed_uid == c['uid'] and r.g_done is not None and r.g_done < c['g'] and not r.lost]
+        own_all = [r for r in ix.writes if r.client == c['inc'] and r.landed_uid == c['uid'] and r.g_done is not None and r.g_done < c['g'] and not r.lost]
+        # writes made on behalf of daemons/timers (their results, their patch kwarg) come from their own tasks, not from the object's worker
+        background = [r for r in own_all if str(getattr(r, 'task', None) or '').startswith('runner of ')]
+        own = [r for r in own_all if r not in background]
+        if background:
+            cov['calls_after_background_write'] += 1
+            lb = background[-1]
+            Pb, tb = int(lb.result_rv), lb.t_done
+            if v < Pb and ct and c['t'] < tb + ct - 1e-9 and not (own and int(own[-1].result_rv) > v and c['t'] < own[-1].t_done + ct - 1e-9):
+                # stale against a daemon's/timer's patch only (judged against the worker's own writes below)
+                viol.append({'mech': 'stale-view-of-background-patch', 'msg': f"{c['h']} ran at t={c['t']} on view rv={v} of {c['uid']} although the framework's patch rv={Pb} "
+                             f"(made for {lb.task}) was acknowledged at t={tb}: neither echoed yet nor {ct}s elapsed", 'witness': {'write': lb.brief()}})
         if not own:
             continue
         cov['calls_after_own_write'] += 1
@@ -144,7 +160,7 @@ def run_case(case: dict[str, Any]) -> dict[str, Any]:
     for uid in ix.uids:
         uid_of_name.setdefault(w.history[uid][0]['body']['metadata']['name'], []).append(uid)
     for r in w.requests:
-        if r.kind == 'patch' and r.plural == 'kopfexamples':
+        if r.kind == 'patch' and r.plural == 'kopfexamples' and not str(getattr(r, 'task', None) or '').startswith('runner of '):   # (the worker's own requests)
             for uid in uid_of_name.get(r.name, []):
                 acts.setdefault((r.client, uid), []).append((r.t, r.t_done if r.t_done is not None else 1e18))
     probes: dict[tuple[str, str], list[dict[str, Any]]] = {}
